@@ -37,6 +37,11 @@ func parseOptions() options {
 		types = append(types, k)
 	}
 
+	// Options are passed in pairs (option and value).
+	if len(args)%2 == 0 {
+		panic(fmt.Errorf("option %s has no value", args[len(args)-1]))
+	}
+
 	for i := 1; i < (len(args) - 1); i += 2 {
 		cSwitch := args[i]
 		cValue := args[i+1]
